@@ -88,9 +88,7 @@ pub extern "C" fn tsrun_native_function(
         }
     }
 
-    TsRunValueResult::ok(Box::new(TsRunValue {
-        inner: crate::RuntimeValue::with_guard(JsValue::Object(fn_obj), guard),
-    }))
+    TsRunValueResult::ok(TsRunValue::from_runtime_value(crate::RuntimeValue::with_guard(JsValue::Object(fn_obj), guard)))
 }
 
 /// Trampoline function that looks up the C callback and invokes it.
@@ -334,7 +332,7 @@ pub extern "C" fn tsrun_register_internal_module(
                 let value = if value_ptr.is_null() {
                     JsValue::Undefined
                 } else {
-                    unsafe { &*value_ptr }.value().clone()
+                    ctx.view(unsafe { &*value_ptr })
                 };
 
                 module_obj.borrow_mut().set_property(key, value);
